@@ -6,7 +6,7 @@
 Require Import List Arith Bool ZArith Lia.
 Require Import LV.Base.Lin.
 Import ListNotations.
-Open Scope Z_scope.
+Local Open Scope Z_scope.
 
 (** ** Results *)
 
